@@ -15,6 +15,9 @@ type RequestBody struct {
 }
 
 func NewRequestBody(r *openapi3.RequestBody, components ComponentsSchemas, opts SchemaOptions) (*RequestBody, error) {
+	if r == nil {
+		return nil, fmt.Errorf("request body is empty")
+	}
 	contentMap, err := NewMap[*MediaType, *openapi3.MediaType](r.Content, func(mt *openapi3.MediaType) (*MediaType, error) {
 		return NewMediaType(mt, components, opts)
 	})
